@@ -444,6 +444,19 @@ def run_shard(ctx, shard):
                 B = alpha.dedup(core + A[:: len(A) // 400])
             if op == "multiply2":
                 B = alpha.dedup(A + residue_twin(field, [v for v in alpha.half_limb_product(m, bits // 64) if v < m]))
+            if op == "inverse":
+                # inputs chosen by their OUTPUT: the binary Euclid ends with its cofactor equal to the stored result K, one halving step
+                # earlier it held 2K - m (K > m/2) or 2K.  For K and for these predecessors drawn from the limb-product alphabets (zero /
+                # all-ones / modulus limbs, sign-bit limbs) the last steps of every inversion run on boundary words although the input is
+                # an unremarkable element: a = (element stored as K)^-1.
+                RI = ref.MONT_Q_INV if field == "fq" else ref.MONT_R_INV
+                n = bits // 64
+                betas = alpha.dedup(alpha.limb_product(m, n, 3) + alpha.sign_limb_product(n)[:: (1 if field == "fr" else 5)])
+                Ks = [b for b in betas if 0 < b < m]
+                Ks += [(b + m) // 2 for b in betas if b % 2 == 1 and b < m] + [b // 2 for b in betas if b % 2 == 0 and 0 < b < m]
+                if tier == "quick":
+                    Ks = Ks[:: 3]
+                B = alpha.dedup(B + [pow(K * RI % m, -1, m) for K in alpha.dedup(Ks) if K % m])
             for a in B:
                 emit(ctx, {"sub": "unop", "cfg": cfg, "field": field, "op": op, "a": hx(a)}, not trivial(a))
             if ctx.out_of_time():
